@@ -59,6 +59,9 @@ TYPE_SHAPES = {
     "m(self,a,b=_D)|a:Optional[M1]": {"a": typing.Optional[DF1]},
     "m(cls,a)|a:M1,return:M2": {"a": DF1, "return": DF2},
     "f(a)|a:Union[M1,M2]": {"a": typing.Union[DF1, DF2]},
+    # None may stand anywhere in a Union (typing keeps the order it is written in): the models it names are designated all the same
+    "f(a)|a:Union[None,M1]": {"a": typing.Union[None, DF1]},
+    "f(a)|a:Union[M1,M2,None]": {"a": typing.Union[DF1, DF2, None]},
     "f(a,*rest)|a:M1,rest:M2": {"a": DF1, "rest": DF2},
     "f(a,**kw)|kw:M1": {"kw": DF1},
     "async f(a)|a:M1,return:M2": {"a": DF1, "return": DF2},
@@ -114,6 +117,8 @@ def models_of(annotation):
         return ["M1"], True
     if annotation == typing.Union[DF1, DF2]:
         return ["M1", "M2"], False
+    if annotation == typing.Union[DF1, DF2, None]:
+        return ["M1", "M2"], True
     return [], False
 
 
